@@ -29,6 +29,7 @@ static table_t T; static unit_t U[MAXU]; static int NU;
 static vh_buf_t expect_log;
 static int g_inv; static int g_iscmd_self_false, g_iscmd_other_true; static char g_isc_detail[200];
 static int g_expected_order[MAXU]; static int g_nexp;
+static int Tnull[MAXT]; /* entry without a handler: accepts its header, runs nothing, still shadows later entries */
 
 static void gen_pattern(vh_rng_t * rng, char * out, size_t cap, int root) {
     /* root: index of a preferred first keyword so that tables have families sharing a path */
@@ -151,7 +152,7 @@ static void gen_message(vh_rng_t * rng, vh_buf_t * msg) {
         if (u) vh_buf_addc(msg, ';');
         if (vh_chance(rng, 1, 6)) vh_buf_addc(msg, ' ');
         vh_buf_adds(msg, x->written);
-        if (vh_chance(rng, 1, 5)) { x->has_param = 1; vh_buf_adds(msg, vh_chance(rng, 1, 2) ? " 12" : " MIN"); }
+        if (!(x->tag && Tnull[x->tag - 1]) && vh_chance(rng, 1, 5)) { x->has_param = 1; vh_buf_adds(msg, vh_chance(rng, 1, 2) ? " 12" : " MIN"); }
     }
     vh_buf_adds(msg, vh_chance(rng, 1, 4) ? "\r\n" : "\n");
 }
@@ -189,20 +190,26 @@ static uint64_t p0_count(int thorough) {
 }
 static void p0_run(uint64_t idx, vh_rng_t * rng) {
     static vh_buf_t msg, got_err, tt;
-    vh_ctx_t * v; int i, u, first_diff_unit = -1;
+    vh_ctx_t * v; int i, u, first_diff_unit = -1; int line_unit[MAXU], nlines = 0;
     char key[120];
     (void) idx;
     gen_table(rng);
-    for (i = 0; i < T.n; i++) { T.cmds[i].pattern = T.pat[i]; T.cmds[i].callback = handler; T.cmds[i].tag = i + 1; }
+    {
+        /* the callback column is part of the table too: an entry may have none */
+        int some = vh_chance(rng, 1, 5);
+        for (i = 0; i < T.n; i++) Tnull[i] = some && vh_chance(rng, 1, 3);
+    }
+    for (i = 0; i < T.n; i++) { T.cmds[i].pattern = T.pat[i]; T.cmds[i].callback = Tnull[i] ? NULL : handler; T.cmds[i].tag = i + 1; }
     T.cmds[T.n].pattern = NULL; T.cmds[T.n].callback = NULL; T.cmds[T.n].tag = 0;
     gen_message(rng, &msg);
     vh_buf_reset(&tt); table_text(&tt);
     vh_case_desc("table {%s} message \"%s\"", vh_buf_cstr(&tt), vh_esc(msg.p, msg.len));
     /* expected event log */
-    vh_buf_reset(&expect_log); g_nexp = 0;
+    vh_buf_reset(&expect_log); g_nexp = 0; nlines = 0;
     for (u = 0; u < NU; u++) {
-        if (U[u].tag) { vh_buf_printf(&expect_log, "H %d ", U[u].tag); vh_buf_add_escaped(&expect_log, U[u].effective, strlen(U[u].effective)); vh_buf_addc(&expect_log, '\n'); g_expected_order[g_nexp++] = u; }
-        else vh_buf_adds(&expect_log, "E -113\n");
+        if (U[u].tag && Tnull[U[u].tag - 1]) { int later = 0; for (i = U[u].tag; i < T.n; i++) if (!Tnull[i] && ref_match(T.pat[i], U[u].effective, strlen(U[u].effective), NULL, 0, 0, NULL)) later = 1; vh_count(later ? "unit.first_match_without_handler_shadows_later_handler" : "unit.first_match_without_handler", 1); }
+        else if (U[u].tag) { line_unit[nlines++] = u; vh_buf_printf(&expect_log, "H %d ", U[u].tag); vh_buf_add_escaped(&expect_log, U[u].effective, strlen(U[u].effective)); vh_buf_addc(&expect_log, '\n'); g_expected_order[g_nexp++] = u; }
+        else { line_unit[nlines++] = u; vh_buf_adds(&expect_log, "E -113\n"); }
     }
     v = vh_ctx_new(T.cmds, 600, 16, 256);
     g_inv = 0; g_iscmd_self_false = g_iscmd_other_true = 0;
@@ -213,7 +220,7 @@ static void p0_run(uint64_t idx, vh_rng_t * rng) {
         /* locate the first differing line -> unit */
         const char * a = vh_buf_cstr(&v->log), * b = vh_buf_cstr(&expect_log); int line = 0;
         while (*a && *b) { const char * ea = strchr(a, '\n'), * eb = strchr(b, '\n'); size_t la = ea ? (size_t) (ea - a) : strlen(a), lb = eb ? (size_t) (eb - b) : strlen(b); if (la != lb || memcmp(a, b, la) != 0) break; a += la + 1; b += lb + 1; line++; }
-        first_diff_unit = line < NU ? line : NU - 1;
+        first_diff_unit = line < nlines ? line_unit[line] : NU - 1;
         {
             unit_t * x = &U[first_diff_unit]; const char * what;
             int got_h = a[0] == 'H', exp_h = b[0] == 'H';
@@ -289,6 +296,6 @@ int main(int argc, char ** argv) {
     vh_require("unit.defined.relative.after-defined-compound"); vh_require("unit.defined.relative.after-undefined-compound");
     vh_require("unit.defined.relative.after-common"); vh_require("unit.undefined.relative.after-defined-compound");
     vh_require("unit.defined.absolute.after-defined-compound"); vh_require("unit.overlap_first_match_matters");
-    vh_require("handler.iscmd_checks"); vh_require("tables.from_shipped_patterns");
+    vh_require("handler.iscmd_checks"); vh_require("unit.first_match_without_handler_shadows_later_handler"); vh_require("tables.from_shipped_patterns");
     return vh_main(argc, argv, "C02", phases, 1);
 }
